@@ -18,6 +18,10 @@ Proved here, over the recursion skeleton REGENERATED from `src/generators/genera
   offers `2^n − 1` combinations, so one function costs at most
   `n₀ + min (2^n − 1) (max_combinations + 1)` feasibility tests.
 
+* `bound_tight` — the bound is attained up to its additive constant (`2·max_depth` nested constructor
+  calls are a shape of the skeleton); `every_increment_needed`, `cut_needed`, `leaf_rule_needed` — the
+  hypothesis fails for the table with any raised call path's increment, the cut, or the leaf rule removed.
+
 NOT claimed (DESIGN C18 "partial"): termination of declaration generation
 (`_gen_matching_class` ↔ `generate_expr`), wall-clock behaviour, and absence of exceptions — the
 last is observed on every explored pipeline run by `harness/check_C18.py`.  The full-strength
@@ -120,6 +124,76 @@ theorem height_unbounded : ¬ height_bounded Generated.skeleton := by
   have := hf 1 (chain (f 1 + 1)) (chain_admitted 1 (by omega) _)
   rw [chain_height] at this
   omega
+
+/-! ### the bound is tight up to its additive constant -/
+
+/-- `new A(new B(…))`, `n` constructor calls nested through constructor arguments -/
+def newChain : Nat → Shape
+  | 0 => .leaf
+  | n + 1 => .node "gen_new" (.cons 1 (newChain n) .nil)
+
+theorem newChain_wdepth (n : Nat) : (newChain n).wdepth = n := by
+  induction n with
+  | zero => rfl
+  | succ n ih => simp [newChain, Shape.wdepth, Kids.wdepth, ih]; omega
+
+theorem newChain_admitted (m : Nat) : ∀ (n d : Nat) (ol : Bool), d + n ≤ 2 * m →
+    admits Generated.skeleton m d ol false (newChain n)
+  | 0, _, _, _ => by simp [newChain, admits]
+  | n + 1, d, ol, h => by
+    simp only [newChain, admits, admitsKids, and_true]
+    refine ⟨Generated.skeleton.gens[3]!, by decide, by decide, ?_, ?_⟩
+    · simp only [Skeleton.allowed, Bool.false_eq_true, if_false]
+      split <;> decide
+    · refine ⟨(Generated.skeleton.gens[3]!).sites[1]!, by decide, by decide, Or.inr ⟨d + 1, false, ?_, ?_, ?_, ?_⟩⟩
+      · have : ((Generated.skeleton.gens[3]!).sites[1]!).off = 1 := by decide
+        omega
+      · intro k hk
+        have : cutBound ((Generated.skeleton.gens[3]!).sites[1]!) = some 2 := by decide
+        rw [this] at hk; cases hk; omega
+      · exact ⟨fun _ => rfl, fun h => absurd h (by decide)⟩
+      · have : olNext ((Generated.skeleton.gens[3]!).sites[1]!).ol ol = ol := by
+          have : ((Generated.skeleton.gens[3]!).sites[1]!).ol = "pass" := by decide
+          rw [this]; simp [olNext]
+        rw [this]
+        exact newChain_admitted m n (d + 1) ol (by omega)
+
+/-- from depth 0 a single `generate_expr` call can nest `2·max_depth` raised-counter calls
+    (constructor calls down to the cut of `gen_new`): `B = 2·max_depth + 8` is exact up to the `8` -/
+theorem bound_tight (m : Nat) : ∃ s, admits Generated.skeleton m 0 false false s ∧ s.wdepth = 2 * m :=
+  ⟨newChain (2 * m), newChain_admitted m (2 * m) 0 false (by omega), newChain_wdepth _⟩
+
+/-! ### `SkeletonOK` notices the edits it is meant to notice -/
+
+/-- the table one reads when the sites with call path `path` lose their depth increment -/
+def dropIncrement (path : String) (sk : Skeleton) : Skeleton :=
+  { sk with gens := sk.gens.map fun g =>
+      { g with sites := g.sites.map fun s => if s.path == path then { s with off := 0, cnt := 0 } else s } }
+
+/-- the table one reads when no `gen_bottom` argument carries a depth test -/
+def dropCut (sk : Skeleton) : Skeleton :=
+  { sk with gens := sk.gens.map fun g => { g with sites := g.sites.map fun s => { s with cut := none } } }
+
+/-- the leaf rule of `get_generators` offering the full list of generators -/
+def dropLeafRule (sk : Skeleton) : Skeleton :=
+  { sk with dispatch := sk.dispatch.mapIdx fun i b => if i == 1 then (b.1, (sk.dispatch[2]?.getD b).2) else b }
+
+/-- call paths of the current table that run under a raised counter -/
+def raisedPaths (sk : Skeleton) : List String :=
+  (((sk.gens.map (·.sites)).flatten.filter (fun s => s.cnt != 0)).map (·.path)).eraseDups
+
+/-- removing the depth increment of ANY raised call path of the current source (11 paths: arguments and
+    operands of every non-leaf generator and of `gen_new`) falsifies the hypothesis … -/
+theorem every_increment_needed :
+    (raisedPaths Generated.skeleton).all (fun p => !SkeletonOK (dropIncrement p Generated.skeleton)) = true := by
+  decide
+
+/-- … and so do removing the `gen_bottom` cut of `gen_new` and switching the leaf rule off -/
+theorem cut_needed : SkeletonOK (dropCut Generated.skeleton) = false := by decide
+
+theorem leaf_rule_needed : SkeletonOK (dropLeafRule Generated.skeleton) = false := by decide
+
+example : (raisedPaths Generated.skeleton).length = 11 := by decide
 
 /-! ### the erasure search -/
 
